@@ -205,6 +205,11 @@ def oracle_clusters(ctx, n_runs, directed=False):
             ctx.count("shared_matrix_arithmetic_checked")
             if D_.dist_matrix_radii_mic.dtype != np.float64 or not np.array_equal(D_.dist_matrix_radii_mic, D_.dist_matrix_mic - (rf_[:, None] + rf_[None, :])):
                 arith_bad.append({"kind": kind, "atoms": len(a)})
+            elif k % 4 == 0:
+                import finder_helpers
+                why_ = finder_helpers.distances_agree(aw_, radii_full)
+                if why_:
+                    arith_bad.append({"kind": kind, "atoms": len(a), "what": why_})
         except Exception:  # noqa
             pass
         try:
